@@ -166,6 +166,29 @@ class Index:
         ks = {_key(v) for v in values}
         return Arr([_key(v) in ks for v in self._v])
 
+    # -- what a column offers, on the values of the index
+    def _as_series(self) -> "Series":
+        return Series(list(self._v), name=self.name)
+
+    def astype(self, dtype, **kw):
+        return Index(self._as_series().astype(dtype, **kw)._v, self.names)
+
+    def dropna(self, **kw):
+        return Index([v for v in self._v if not isna(v)], self.names)
+
+    def max(self, **kw):
+        return self._as_series().max(**kw)
+
+    def min(self, **kw):
+        return self._as_series().min(**kw)
+
+    @property
+    def str(self):
+        return _IndexStr(self)
+
+    def to_series(self, **kw):
+        return Series(list(self._v), Index(self._v, self.names), name=self.name)
+
     def get_level_values(self, level):
         k = self._level(level)
         if len(self.names) == 1:
@@ -690,6 +713,12 @@ class Series:
     def __neg__(self):
         return self._new([NAN if isna(v) else -v for v in self._v])
 
+    def abs(self):
+        return self._new([NAN if isna(v) else abs(v) for v in self._v])
+
+    def round(self, decimals=0):
+        return self._new([NAN if isna(v) else round(v, decimals) for v in self._v])
+
     __hash__ = None
 
 
@@ -823,6 +852,25 @@ class _Str:
         if regex or kw:
             _unsupported("str.contains with regex")
         return self._s._new([NAN if isna(v) else pat in v for v in self._s._v])
+
+
+class _IndexStr:
+    """`.str` of an Index: the string methods of a column, results as an Index"""
+
+    _folder_stub = True
+
+    def __init__(self, idx: Index):
+        self._i = idx
+        self._s = _Str(idx._as_series())
+
+    def len(self):
+        return Index(self._s.len()._v)
+
+    def __getattr__(self, name):
+        if name.startswith("_"):
+            raise AttributeError(name)
+        f = getattr(self._s, name)
+        return lambda *a: Index(f(*a)._v)
 
 
 class _Cat:
@@ -1674,6 +1722,8 @@ def to_numeric(arg, errors="raise", **kw):
 
     if isinstance(arg, Series):
         return Series([one(v) for v in arg._v], arg.index, name=arg.name)
+    if isinstance(arg, Index):
+        return Index([one(v) for v in arg._v], arg.names)
     if isinstance(arg, (list, tuple, Arr)):
         return Arr([one(v) for v in arg])
     return one(arg)
